@@ -4,6 +4,7 @@ CONSTANTS
  DevNoFallback = FALSE
  DevSkipMax = FALSE
  DevUnwrapNoAlgCheck = TRUE
+ DevRetryKeepsBuffer = FALSE
 INIT Init
 NEXT Next
 INVARIANTS C30_ReaderChecksum C30_ReaderSize C30_ServeSha C30_ServeSize
